@@ -589,7 +589,7 @@ class ZoneSpecifier:
     ) -> Optional[Transition]:
         """Return Transition for the given datetime.
         """
-        self.init_for_year(dt.year)
+        self._init_for_datetime(dt)
         return self._find_transition_for_datetime(dt)
 
     def get_timezone_info_for_seconds(self, epoch_seconds: int) -> OffsetInfo:
@@ -608,7 +608,7 @@ class ZoneSpecifier:
     ) -> Optional[OffsetInfo]:
         """Return the OffsetInfo of the Transition for a given datetime.
         """
-        self.init_for_year(dt.year)
+        self._init_for_datetime(dt)
         transition = self._find_transition_for_datetime(dt)
         return transition.to_timezone_tuple() if transition else None
 
@@ -760,6 +760,18 @@ class ZoneSpecifier:
 
             year = ldt.year
 
+        self.init_for_year(year)
+
+    def _init_for_datetime(self, dt: datetime) -> None:
+        """Initialize the Transitions from the given local datetime. Mirrors
+        _init_for_second(): a window shorter than 14 months starts on Jan 1,
+        so Jan 1 itself must be looked up in the previous year's window,
+        otherwise the Transition just before a gap on Jan 1 is missing.
+        """
+        if self.viewing_months < 14 and dt.month == 1 and dt.day == 1:
+            year = dt.year - 1
+        else:
+            year = dt.year
         self.init_for_year(year)
 
     def _find_transition_for_seconds(
